@@ -240,6 +240,8 @@ def duplicate_handling_keyed_like_naming(ctx: Ctx) -> None:
     if names is not None:
         ctx.ob("designators run MergeDuplicateClasses, RenameDuplicateClasses, ValidateReferences, DesignateClassPackages in this order", names == ["MergeDuplicateClasses", "RenameDuplicateClasses", "ValidateReferences", "DesignateClassPackages"], at=cont,
                construct="designator order", msg=f"order {names}")
+    else:
+        ctx.abstain("designator run order", at=cont, why="designate_classes has no straight-line `<Handler>(self).run()` sequence")
     init, table = processor_table(ctx)
     if table is not None:
         pos = {n: (k_, i_) for i_, (k_, n) in enumerate(table)}
@@ -330,3 +332,58 @@ def enum_defaults_use_the_imported_name(ctx: Ctx) -> None:
     reads = [x for f_ in family(ctx.repo, fd) for x in walk_no_nested(f_.node) if isinstance(x, ast.Attribute) and x.attr == "alias" and isinstance(x.ctx, ast.Load)]
     ctx.ob("field_default_enum consults the import alias of the enumeration type", bool(reads), at=fd, construct="enum default alias",
            msg="the default names the class by its own name although the module imports it under an alias: NameError / AttributeError when the generated module is imported")
+
+
+@rule("C07.R8")
+def reserved_names_and_candidates_are_keyed_alike(ctx: Ctx) -> None:
+    """RenameDuplicateClasses: the set of taken slugs (get_reserved) and the candidate that is tested against it (next_qname) are computed
+    from the same thing - the local name in "use names" mode, the qualified name otherwise: both consult self.use_names, or neither does.
+    DependenciesResolver: the per-module alias table is rebuilt - not only extended - for every process() call."""
+    from ..q import family
+
+    cq = "xsdata.codegen.handlers.rename_duplicate_classes:RenameDuplicateClasses"
+    gr, nq = ctx.repo.func(f"{cq}.get_reserved"), ctx.repo.func(f"{cq}.next_qname")
+
+    def mode_reads(f: FuncInfo) -> bool:
+        return any(isinstance(x, ast.Attribute) and x.attr == "use_names" and isinstance(x.ctx, ast.Load) for f_ in family(ctx.repo, f) for x in walk_no_nested(f_.node))
+
+    a, b = mode_reads(gr), mode_reads(nq)
+    ctx.ob("get_reserved and next_qname key the taken names alike (both depend on self.use_names, or neither)", a == b, at=gr, construct="reserved key mode",
+           msg=f"get_reserved {'consults' if a else 'ignores'} self.use_names while next_qname {'consults' if b else 'ignores'} it: in one of the two modes a candidate is compared with keys of another kind "
+               "and a taken name is handed out again (two classes of a module end up with the same name)")
+    rs = ctx.repo.cls("xsdata.codegen.resolver:DependenciesResolver")
+    pr = rs.methods.get("process")
+    fills = []   # (method, statement) that add entries to self.aliases in place
+    resets = []  # (method, statement) that rebind or clear it
+    for m in rs.methods.values():
+        if m.name in ("__init__",):
+            continue
+        for st, tgt, v in stores(m.node):
+            if isinstance(tgt, ast.Subscript) and is_self_attr(tgt.value, "aliases"):
+                fills.append((m, st))
+            elif is_self_attr(tgt, "aliases"):
+                resets.append((m, st))
+        for c in calls_in(m.node):
+            if isinstance(c.func, ast.Attribute) and is_self_attr(c.func.value, "aliases"):
+                if c.func.attr in ("update", "setdefault"):
+                    fills.append((m, c))
+                elif c.func.attr == "clear":
+                    resets.append((m, c))
+    if pr is None or not (fills or resets):
+        ctx.abstain("alias table of DependenciesResolver", at=pr or next(iter(rs.methods.values())), why="self.aliases is not written in a recognisable way")
+        return
+    ok = bool(resets)
+    for m, st in fills:
+        g = build_cfg(m.node)
+        n = g.node_of(st)
+        own = [g.node_of(r) for mm, r in resets if mm is m]
+        dominated = n is not None and bool(own) and g.must_pass(g.entry, n.id, [x.id for x in own if x is not None])
+        if not dominated:
+            # the reset may be in process() itself, before it calls the filling method
+            gp = build_cfg(pr.node)
+            pres = [gp.node_of(r) for mm, r in resets if mm is pr]
+            callers = [gp.node_of(c) for c in calls_in(pr.node) if isinstance(c.func, ast.Attribute) and c.func.attr == m.name and unparse(c.func.value) == "self"]
+            dominated = bool(pres) and bool(callers) and all(cn is not None and gp.must_pass(gp.entry, cn.id, [x.id for x in pres if x is not None]) for cn in callers)
+        ok = ok and dominated
+    ctx.ob("DependenciesResolver rebuilds self.aliases for every process() call (entries of the previous module do not survive)", ok, at=pr, construct="alias table reset",
+           msg="aliases are only added: an alias chosen for one module is applied to the types of the next module, which imports the class under its own name (NameError when the generated module is imported)")
